@@ -144,6 +144,8 @@ pub enum StreamItem {
     Gate(u32),
     /// ... or until the virtual clock reaches now + d
     Delay(u64),
+    /// from here on the stream is always ready: it yields items base, base+1, ... for ever
+    Forever(u64),
 }
 
 #[derive(Clone, Debug, PartialEq, Eq, Serialize, Deserialize)]
